@@ -1,7 +1,7 @@
 import CalicoVerif.Util.Proto
 import CalicoVerif.Model.C17
 /-! Driver for C17.
-  `new <removeNonCalico01>` | `iface <name> <idx> <up|down|gone>` (down/gone also drops the kernel's routes on it) | `kroute <cidr> <ifindex> <gw|-> <proto> <kind>` | `kdel <cidr>`
+  `new <removeNonCalico01>` | `iface <name> <idx> <up|down|gone>` (link change + monitor callbacks; down/gone also drops the kernel's routes on it) | `link <name> <idx> <up|down|gone>` (the same link change, callbacks delayed) | `flush` (the delayed callbacks arrive) | `kroute <cidr> <ifindex> <gw|-> <proto> <kind>` | `kdel <cidr>`
   `set <cls> <iface> <cidr~gw~kind,...|->` | `upd <cls> <iface> <cidr> <gw|-> <kind>` | `rem <cls> <iface> <cidr>` | `resync`
   `apply <letters>`   letters ⊆ {l (LinkList fails), r (RouteList fails), n (LinkByName fails), p (RouteReplace fails once), d (RouteDel fails once)}, `-` = none
 -/
@@ -20,7 +20,7 @@ def showR (m : Map KRoute) : String :=
     s!"{p.1}={p.2.ifindex}/{if p.2.gw == "" then "-" else p.2.gw}/{p.2.proto}/{p.2.kind}")) ++ "}"
 
 def showAll (w : W) : String :=
-  let des : Map KRoute := w.t.desiredKeys.filterMap (fun c => (w.t.desired c).map (fun r => (c, r)))
+  let des : Map KRoute := w.t.des
   showK w.K ++ " D" ++ showR des ++ " P" ++ showR w.t.dp ++ " R{" ++ ",".intercalate (sortS w.t.rescan) ++ "} f" ++
     (if w.t.fullResync then "1" else "0")
 
@@ -32,6 +32,9 @@ def parseOp (line : String) : Option Op :=
   match words line with
   | ["iface", n, i, st] =>
     i.toNat?.map (fun i => Op.iface n i (if st == "gone" then none else some (st == "up")))
+  | ["link", n, i, st] =>
+    i.toNat?.map (fun i => Op.link n i (if st == "gone" then none else some (st == "up")))
+  | ["flush"] => some Op.flush
   | ["kroute", c, i, g, p, k] =>
     match i.toNat?, p.toNat? with
     | some i, some p => some (Op.kroute c ⟨i, gwOf g, p, k⟩)
